@@ -66,3 +66,45 @@ func VH_C13_LongHeads() {
 		vh.Reach("reject")
 	}
 }
+
+// VH_C13_StringBoundary: byte/text strings with a 1-byte (0x58/0x78) or 2-byte (0x59/0x79) length head whose
+// length bytes are SYMBOLIC, followed by T content bytes with T around the declared-length boundaries
+// (22..26 for 1-byte heads, 254..259 for 2-byte heads; the first and last content byte symbolic), at top level,
+// as the last array element and as the last map value: content shorter / equal / longer than declared by a few
+// bytes - the region where "head bytes forgotten in the bounds check" bugs live.
+func VH_C13_StringBoundary() {
+	vh.MustReach("accept", "reject")
+	text := vh.Choose(2)
+	major := byte(2 + text)
+	two := vh.Choose(2) == 1
+	nest := vh.Choose(3)
+	var in []byte
+	switch nest {
+	case 1:
+		in = append(in, 0x82, 0x00)
+	case 2:
+		in = append(in, 0xa1, 0x00)
+	}
+	var T int
+	if two {
+		in = append(in, major<<5|25)
+		in = append(in, vh.Bytes("f", 2)...)
+		T = 254 + vh.Choose(6)
+	} else {
+		in = append(in, major<<5|24)
+		in = append(in, vh.Bytes("f", 1)...)
+		T = 22 + vh.Choose(5)
+	}
+	content := make([]byte, T)
+	content[0] = vh.Byte("c0")
+	content[T-1] = vh.Byte("c9")
+	in = append(in, content...)
+	got := c13Verdict(in)
+	want := refDetSeq(in)
+	vh.Assert(got == want, "accepts exactly the deterministic item sequences (string length boundaries)")
+	if got {
+		vh.Reach("accept")
+	} else {
+		vh.Reach("reject")
+	}
+}
